@@ -470,6 +470,8 @@ package parse
 //@ fieldinv parse.CommentNode.TextNode nonnil
 // and the elements of node / expression lists are never nil
 //@ arrayinv Node nonnil
+//@ mapinv map[string]*BlockNode nonnil
+//@ mapinv map[string]*MacroNode nonnil
 //@ arrayinv Expr nonnil
 //@ arrayinv *KeyValueExpr nonnil
 //@ fieldinv parse.FilterExpr.FuncExpr nonnil
@@ -722,6 +724,7 @@ package parse
 //@   reveal window, blocksOK
 //@   requires tstruct(t)
 //@   assume a4: streamOK(t.lex) && t.lex.rcv == 0
+//@   ensures ok: err == nil ==> t.root != nil && len(t.blocks) >= 1 && t.macros != nil
 //@   loop 1 invariant tinv(t)
 //@   loop 1 decreases left(t)
 //@   loop 2 invariant true
